@@ -9,37 +9,40 @@ theorem onSubscribe_sub_hot (k : ConnM.Kind) (st : ConnM.State) (l : Option Nat)
     (ConnM.onSubscribe k .hot st l).sub = st.sub := by
   unfold ConnM.onSubscribe; split <;> rfl
 
-theorem stepRp_subscribe (st : ConnM.State) (n : Nat) (hu : (st.sub.obs n).seen = false) :
-    ConnM.step .replay .hot st (.subscribe n) =
-      ConnM.onUnsubscribe
-        { ConnM.onSubscribe .replay .hot
-            { st with sub := { st.sub with serial := st.sub.serial + 1
-                                           observers := st.sub.observers ++ [(st.sub.serial + 1, n)]
-                                           obs := upd st.sub.obs n (regRec (st.sub.serial + 1)) } }
-            (some (st.sub.observers.length + 1)) with
-          sub := (subscribeB .replay
-            (ConnM.onSubscribe .replay .hot
-              { st with sub := { st.sub with serial := st.sub.serial + 1
-                                             observers := st.sub.observers ++ [(st.sub.serial + 1, n)]
-                                             obs := upd st.sub.obs n (regRec (st.sub.serial + 1)) } }
-              (some (st.sub.observers.length + 1))).sub n
-            { fresh := true, len := some (st.sub.observers.length + 1), history := st.sub.items }).1 }
-        (subscribeB .replay
-            (ConnM.onSubscribe .replay .hot
-              { st with sub := { st.sub with serial := st.sub.serial + 1
-                                             observers := st.sub.observers ++ [(st.sub.serial + 1, n)]
-                                             obs := upd st.sub.obs n (regRec (st.sub.serial + 1)) } }
-              (some (st.sub.observers.length + 1))).sub n
-            { fresh := true, len := some (st.sub.observers.length + 1), history := st.sub.items }).2 := by
-  simp [ConnM.step, ConnM.Kind.counts, ConnM.Kind.subj, subscribeA, hu, register, regRec]
+/-- the state when `on_subscribe(len)` is reached inside `subscribe n` -/
+def regState (st : ConnM.State) (n : Nat) : ConnM.State :=
+  { st with sub := { st.sub with serial := st.sub.serial + 1
+                                 observers := st.sub.observers ++ [(st.sub.serial + 1, n)]
+                                 obs := upd st.sub.obs n (regRec (st.sub.serial + 1)) } }
 
-theorem subscribeRp_spec {L cobs cacs armed w st} (h : RelRp L cobs cacs armed none none [] w st) :
-    WP (.userSub 1 noReact .done) w (fun w' => ∃ L' cobs' cacs' armed',
-      L'.roots.length = L.roots.length + 1 ∧
-      RelRp L' cobs' cacs' armed' none none [] w' (ConnM.step .replay .hot st (.subscribe L.roots.length))) := by
-  obtain ⟨g, U, X⟩ := h.ur
-  have hu : (st.sub.obs L.roots.length).seen = false := by rw [U.unseen _ (Nat.le_refl _)]
-  rw [stepRp_subscribe _ _ hu]
+/-- what the hand-over works with: the history is the snapshot taken BEFORE the hook ran -/
+def pendOf (st : ConnM.State) : Pending :=
+  { fresh := true, len := some (st.sub.observers.length + 1), history := st.sub.items }
+
+theorem stepRp_subscribe (src : ConnM.Src) (st : ConnM.State) (n : Nat) (hu : (st.sub.obs n).seen = false) :
+    ConnM.step .replay src st (.subscribe n) =
+      ConnM.onUnsubscribe
+        { ConnM.onSubscribe .replay src (regState st n) (some (st.sub.observers.length + 1)) with
+          sub := (subscribeB .replay
+            (ConnM.onSubscribe .replay src (regState st n) (some (st.sub.observers.length + 1))).sub n (pendOf st)).1 }
+        (subscribeB .replay
+            (ConnM.onSubscribe .replay src (regState st n) (some (st.sub.observers.length + 1))).sub n (pendOf st)).2 := by
+  simp [ConnM.step, ConnM.Kind.counts, ConnM.Kind.subj, subscribeA, hu, register, regRec, regState, pendOf]
+
+/-- `subscribe` of a test user up to the return of the `on_subscribe` hook (replay_subject.rs:46-68, subject.rs:62-82);
+    what follows (`hk`) starts from the relation for the state after the hook, with the new subscription still
+    pending and its `sbsc` not stored -/
+theorem subscribeFrontG (F : RFam) {L cobs cacs armed w st} (h : F.Rel L cobs cacs armed none none [] w st)
+    {Q : World → Prop}
+    (hk : ∀ w2 cobs' cacs' armed',
+      F.Rel (L.reg w) cobs' cacs' armed' (some L.roots.length) (some L.roots.length) [] w2
+        (ConnM.onSubscribe .replay F.src (regState st L.roots.length) (some (st.sub.observers.length + 1))) →
+      WP ((forEach st.sub.items fun x => .obsNext w.obs.length x .done) ;;
+          termProgR st.sub.wasError st.sub.wasCompleted w.obs.length) w2 (fun w3 =>
+        WP (storeProgR w.obs.length (w.obs.length + 1) w.cells.length) w3 (fun w4 =>
+          WP (.userReady L.roots.length .done) w4 Q))) :
+    WP (.userSub 1 noReact .done) w Q := by
+  obtain ⟨g, U, X⟩ := F.ur h
   have h9 : 9 < w.cells.length := lt_of_getElem?_some X.cellN
   refine wp_userSub X.obsvS ?_
   unfold RSubj.observable
@@ -84,35 +87,62 @@ theorem subscribeRp_spec {L cobs cacs armed w st} (h : RelRp L cobs cacs armed n
   have hlen : (mapL L st.sub.observers).length = st.sub.observers.length := by simp [mapL]
   rw [hlen]
   unfold slotTail
-  have hmid0 := h.registerUser
+  have hmid0 := F.registerUser h
   refine wp_lockedSlotCall_someG (SlotReads.of_nil X.held) (show _ = some (some _) from X.slot2) ?_
   dsimp only
   rw [X.held]
-  have hmid := hmid0.held_swap (Hd' := [(LockId.slot 2, false)]) (w' := _) rfl (SlotReads.nil.cons 2)
-  refine (onSubHookR_spec hmid (st.sub.observers.length + 1)).conseq ?_
+  have hmid := F.held_swap hmid0 (Hd' := [(LockId.slot 2, false)]) (w' := _) rfl (SlotReads.nil.cons 2)
+  refine (F.onSubHook hmid (st.sub.observers.length + 1)).conseq ?_
   rintro w2 ⟨cobs', cacs', armed', h2⟩
   refine wp_lockRel (WP.done ?_)
-  have hrel : w2.release (LockId.slot 2) = { w2 with held := [] } := release_single w2 _ false h2.ur.2.2.held
+  have hrel : w2.release (LockId.slot 2) = { w2 with held := [] } := release_single w2 _ false (F.ur h2).2.2.held
   rw [hrel]
-  have h2' := h2.held_swap (w' := { w2 with held := [] }) rfl SlotReads.nil
-  have hsub := onSubscribe_sub_hot .replay
-    { st with sub := { st.sub with serial := st.sub.serial + 1
-                                   observers := st.sub.observers ++ [(st.sub.serial + 1, L.roots.length)]
-                                   obs := upd st.sub.obs L.roots.length (regRec (st.sub.serial + 1)) } }
-    (some (st.sub.observers.length + 1))
-  have hr : (ConnM.onSubscribe .replay .hot
-      { st with sub := { st.sub with serial := st.sub.serial + 1
-                                     observers := st.sub.observers ++ [(st.sub.serial + 1, L.roots.length)]
-                                     obs := upd st.sub.obs L.roots.length (regRec (st.sub.serial + 1)) } }
+  have h2' := F.held_swap h2 (w' := { w2 with held := [] }) rfl SlotReads.nil
+  rw [U.nUsers]
+  exact hk _ cobs' cacs' armed' h2'
+
+/-! ### the hot relation is a family -/
+
+def hotFam : RFam where
+  src := .hot
+  Rel := RelRp
+  ur := fun h => h.ur
+  held := fun h => h.held
+  held_swap := fun h hw hs => h.held_swap hw hs
+  ready := fun h => h.ready
+  registerUser := fun h => h.registerUser
+  patchUser := fun h _ ho w' r' O' a1 a2 a3 a4 a5 a6 a7 a8 a9 a10 a11 a12 a13 a14 a15 a16 a17 a18 a19 a20 a21 a22 a23 _ =>
+    h.patchUser ho w' r' O' a1 a2 a3 a4 a5 a6 a7 a8 a9 a10 a11 a12 a13 a14 a15 a16 a17 a18 a19 a20 a21 a22 a23
+  storeUser := fun h w' r' O' a1 a2 a3 a4 a5 a6 a7 a8 a9 a10 a11 a12 a13 a14 a15 a16 a17 a18 a19 a20 a21 _ =>
+    h.storeUser w' r' O' a1 a2 a3 a4 a5 a6 a7 a8 a9 a10 a11 a12 a13 a14 a15 a16 a17 a18 a19 a20 a21
+  onUnsubHook := fun h len0 => onUnsubHookR_spec h len0
+  onSubHook := fun h len1 => onSubHookR_spec h len1
+
+theorem unsubscribeRp_spec {L cobs cacs armed w st} (h : RelRp L cobs cacs armed none none [] w st) (u : Nat) :
+    WP (.userUnsub u .done) w (fun w' => ∃ armed',
+      RelRp L cobs cacs armed' none none [] w' (ConnM.step .replay .hot st (.unsubscribe u))) :=
+  unsubscribeG_spec hotFam h u
+
+theorem subscribeRp_spec {L cobs cacs armed w st} (h : RelRp L cobs cacs armed none none [] w st) :
+    WP (.userSub 1 noReact .done) w (fun w' => ∃ L' cobs' cacs' armed',
+      L'.roots.length = L.roots.length + 1 ∧
+      RelRp L' cobs' cacs' armed' none none [] w' (ConnM.step .replay .hot st (.subscribe L.roots.length))) := by
+  obtain ⟨g, U, X⟩ := h.ur
+  have hu : (st.sub.obs L.roots.length).seen = false := by rw [U.unseen _ (Nat.le_refl _)]
+  rw [stepRp_subscribe _ _ _ hu]
+  refine subscribeFrontG hotFam h ?_
+  intro w2 cobs' cacs' armed' h2'
+  have hsub := onSubscribe_sub_hot .replay (regState st L.roots.length) (some (st.sub.observers.length + 1))
+  have hr : (ConnM.onSubscribe .replay .hot (regState st L.roots.length)
       (some (st.sub.observers.length + 1))).sub.obs L.roots.length = regRec (st.sub.serial + 1) := by
-    rw [hsub]; simp [upd]
-  have T := subscribeTail_spec (some (st.sub.observers.length + 1)) (root := w.obs.length) (fwd := w.obs.length + 1)
-    (sb := w.cells.length)
+    rw [hsub]; simp [upd, regState]
+  have T := subscribeTailG_spec hotFam (some (st.sub.observers.length + 1)) (root := w.obs.length)
+    (fwd := w.obs.length + 1) (sb := w.cells.length)
     (by show _ = rootAt (L.roots ++ [_]) _; rw [rootAt_append_last])
     (by show _ = rootAt (L.fwds ++ [_]) _; rw [← U.lenF, rootAt_append_last])
     (by show _ = rootAt (L.sbs ++ [_]) _; rw [← U.lenS, rootAt_append_last]) h2' hr
+  dsimp only [hotFam] at T h2'
   rw [hsub] at T ⊢
-  rw [U.nUsers]
   refine T.conseq ?_
   intro w3 T3
   refine T3.conseq ?_
@@ -195,11 +225,11 @@ theorem relRp_init : RelRp ⟨[], [], [], []⟩ [] [] [] none none [] w0R ConnM.
         cellsNodup := by simp
         cellsGe := fun c hc => by cases hc }
   · exact
-      { held := rfl, slot0 := rfl, slot1 := rfl, slot2 := rfl, slot3 := rfl, obsvH := rfl, obsvS := rfl
+      { held := rfl, slot0 := rfl, slot1 := rfl, slot2 := rfl, slot3 := rfl, obsvS := rfl
         cellG := rfl, cellB := rfl, cellN := rfl, sbLt := (fun i hi => by cases hi), lenCa := rfl
         caNodup := (by simp), caGe := (fun c hc => by cases hc), caDisj := (fun c hc => by cases hc) }
   · exact
-      { ne := by decide, cellO := rfl, cellS := rfl, lenC := rfl, lenA := rfl
+      { ne := by decide, cellO := rfl, cellS := rfl, lenC := rfl, lenA := rfl, obsv := rfl
         obs := fun i hi => by simp [ConnM.init] at hi
         acell := fun i hi => by simp [ConnM.init] at hi
         liveArmed := fun i hi => by simp [ConnM.init] at hi }
